@@ -12,7 +12,11 @@ Correspondence (model ≈ code), all through the real code of `VERIF_REPO`:
 Oracle: an independent RFC 8323 §3.2 / RFC 7252 §3.1 framer (harness/c15_sim.py) reads the
 joined stream and says what the property demands; the whole session is judged, including what
 happens after the first close (nothing may be dispatched or written any more), and every
-chunking of a stream is judged against that same reading.  `send_message` is judged against the
+chunking of a stream is judged against that same reading.  "Send Abort and close", "answered by
+Pong" are judged on what reaches the PEER: the fake transport has a write buffer (the peer may
+have stopped reading), close() flushes it, abort() throws it away (keys tcp-abort-lost,
+tcp-write-lost).  Sessions run with warnings as errors: a warning issued by library code while
+it handles the peer's bytes escapes data_received like any exception.  `send_message` is judged against the
 RFC framing of the message handed in (requests keep every option and are not modified).  A few
 sessions run with the real TokenManager to see pending requests actually fail with a
 NetworkError on Release/Abort.
@@ -40,11 +44,18 @@ RULE = ("Streams are built by an independent RFC 8323 framer from message sequen
         "every 2-cut. send_message is called with every No-Response value of {absent,0,2,8,16,24,26,127,...} x "
         "request/response codes of every class x client/server role. Each stream is cut exhaustively into all chunkings when it is "
         "short (<= 11 bytes; 14 in the thorough tier), otherwise whole / single bytes / every 2-cut around the headers / random "
-        "cuts. A case is non-trivial when the connection did something beyond its initial CSM; "
-        "distinct by (max size, chunk list).")
+        "cuts. Pings carry tokens of every length 0..8 (zeros, ff, counting, random), with and without elective options, first "
+        "and after the CSM. Back-pressure: every session shape of the tables (and 70 % of the random ones) also runs against a peer "
+        "that stops reading after `room` bytes (0, 1, 6, 7 = exactly the endpoint's CSM, 8, 10, 12, 40, random < 300), so that "
+        "whatever the endpoint writes next - Pong, Abort - waits in the transport's write buffer when the connection is closed. "
+        "All sessions run with warnings turned into errors (as under python -W error). "
+        "A case is non-trivial when the connection did something beyond its initial CSM; "
+        "distinct by (max size, chunk list, room).")
 TRUSTED = ["fake asyncio.Transport and recording token manager (harness/c15_sim.py); "
-           "asyncio is represented by: is_closing() is true after close(), no data_received after close(), "
-           "connection_lost(None) after close()"]
+           "asyncio is represented by: is_closing() is true after close() or abort(), no data_received after that, "
+           "connection_lost(None) after it; write() never blocks and queues what the socket does not take; close() flushes "
+           "the write buffer before the connection ends, abort() discards it (asyncio's documented WriteTransport contract); "
+           "the events compared and judged are the peer's view (bytes that reach it, end of connection)"]
 ASSUMPTIONS = ["bytes are delivered in order and unmodified (TCP); only the segmentation varies",
                "option delta/length 65804 in *outgoing* messages is out of model (C01's off-by-one in "
                "_write_extended_field_value)"]
